@@ -41,18 +41,19 @@ NONOPT = [i for i, (n, k) in enumerate(ATTRS) if k in ('float', 'int-nonopt')]
 EXCLUDED = set(NONOPT) | set(VOLATILE)
 NULLABLE = ('int-null', 'int-lazy')
 OBJS = [1, 2]
+FSTEP = 2.0 ** -30   # optimistic float tolerance 1e-14 (exactly representable steps), far below any looser comparison
 
 
 def dec(kind, n):
     if kind in ('int-null', 'int-lazy'): return None if n == -1 else n
-    if kind in ('float', 'float-opt'): return n + 0.5
+    if kind in ('float', 'float-opt'): return 1.5 + n * FSTEP      # neighbouring values differ by ~6e-10 relative: far above the
     if kind == 'str': return 's%d' % n
     return n
 
 
 def enc(kind, v):
     if v is None: return -1
-    if kind in ('float', 'float-opt'): return int(v - 0.5)
+    if kind in ('float', 'float-opt'): return int(round((v - 1.5) / FSTEP))
     if kind == 'str': return int(v[1:])
     return int(v)
 
